@@ -92,6 +92,7 @@ pub fn corpus() -> i32 {
     let mut bad = 0;
     let mut n = 0;
     let mut combined: u64 = 0;
+    let mut max_locals = (0usize, String::new());
     for f in files {
         let name = f.file_name().unwrap().to_string_lossy().to_string();
         if name.starts_with('_') {
@@ -106,6 +107,17 @@ pub fn corpus() -> i32 {
         let res = std::panic::catch_unwind(std::panic::AssertUnwindSafe(|| sylt::compile_with_reader_to_writer(&args, sylt::read_file, &mut out)));
         n += 1;
         combined = combined.wrapping_mul(31).wrapping_add(crate::harness::fnv(&out));
+        if let Ok(Ok(())) = &res {
+            match crate::luarun::loads(&out) {
+                Ok(c) => {
+                    let m = c.max_active_locals();
+                    if m > max_locals.0 {
+                        max_locals = (m, f.display().to_string());
+                    }
+                }
+                Err(e) => println!("DOES NOT LOAD {}: {:?}", f.display(), e),
+            }
+        }
         let got = match &res {
             Ok(Ok(())) => 0,
             Ok(Err(e)) => e.len(),
@@ -116,6 +128,7 @@ pub fn corpus() -> i32 {
             println!("MISMATCH {}: expected {} compile errors, got {}", f.display(), expected_compile_errors, if got == usize::MAX { "panic".to_string() } else { got.to_string() });
         }
     }
+    println!("max active locals in one function: {} in {}", max_locals.0, max_locals.1);
     println!("corpus: {} programs, {} mismatches, combined output hash {:016x}", n, bad, combined);
     if bad == 0 { 0 } else { 1 }
 }
